@@ -14,12 +14,14 @@ for f in d['findings']:
     if f['status']=='fixed': seen.setdefault(f['commit'],[]).append(f['property'])
 for c,ps in seen.items(): print(c,' '.join(sorted(set(ps))))
 PY
+exec 9>/verif/target/.repo.lock; export AXVERIF_LOCK_HELD=1
 while read C PROPS; do
+  flock 9    # /repo is modified from here to the reset below (see /verif/check)
   SUBJ=$(git log -1 --format=%s $C | sed 's/^fix: //' | tr -c 'A-Za-z0-9' '_' | cut -c1-40 | tr 'A-Z' 'a-z')
   grep -q "^$C .*skipped" $OUT/summary.txt && continue
   if ! git revert --no-commit $C >/dev/null 2>&1; then
     git revert --abort 2>/dev/null; git reset -q --hard HEAD
-    echo "$C $SUBJ: revert conflicts with later fixes (skipped)" >> $OUT/summary.txt; continue
+    echo "$C $SUBJ: revert conflicts with later fixes (skipped)" >> $OUT/summary.txt; flock -u 9; continue
   fi
   for P in $PROPS; do
     grep -q "^$C $P " $OUT/summary.txt && continue
@@ -34,5 +36,6 @@ while read C PROPS; do
     done
   done
   git reset -q --hard HEAD
+  flock -u 9
 done < $OUT/plan.txt
 cat $OUT/summary.txt
